@@ -1,11 +1,13 @@
 package rules
 
 import (
+	"os"
 	"fmt"
 	"go/token"
 	"go/types"
 	"sort"
 	"strings"
+	"wtfverif/checker/internal/origin"
 
 	"golang.org/x/tools/go/ssa"
 
@@ -457,6 +459,7 @@ func c20CLI(c *Ctx) {
 		}
 		r.Check(good, "O-3", "cli.searchCmd.Run#validates-joined-arguments", c.P.Pos(call.Pos()), "ValidateQuery(strings.Join(args, \" \"))", "the query validated is not the command-line arguments joined by single spaces")
 	}
+	c20MatcherPatterns(c)
 	vq := c.P.Func("internal/validation", "", "ValidateQuery")
 	if vq != nil {
 		ok, nAccept := true, 0
@@ -552,4 +555,72 @@ func cacheKeyQuerySteps(c *Ctx) (kinds []string, pos string, found bool) {
 	})
 	sort.Strings(kinds)
 	return kinds, pos, found
+}
+
+// c20MatcherPatterns: O-3 for every command. The typo matcher is the one
+// place where the engine sees the query as typed, blanks included (every
+// other path tokenises). Whatever reaches its pattern argument from the
+// command layer must therefore be a query that ValidateQuery has trimmed and
+// collapsed: traced back through the call graph, every origin of the pattern
+// is a ValidateQuery result, a constant, or lies outside package cli.
+func c20MatcherPatterns(c *Ctx) {
+	r := c.R
+	tr := &origin.Tracer{CG: c.P.CallGraph(), Through: func(call *ssa.Call, idx int) []ssa.Value {
+		switch ssau.CallName(call) {
+		case "strings.Join":
+			return call.Common().Args[:1]
+		case "strings.ToLower", "strings.TrimSpace":
+			return call.Common().Args
+		}
+		return nil
+	}}
+	n := 0
+	ord := newOrdinal()
+	for _, fn := range shippedFuncs(c) {
+		if pk := c.P.PkgOfFunc(fn); pk == nil || pk.PkgPath != dbPkg {
+			continue
+		}
+		for _, fc := range callsTo(fn, fuzzyFind) {
+			n++
+			var bad []string
+			for _, rt := range tr.Roots(fc.Common().Args[0]) {
+				if os.Getenv("WTF_DEBUG_C20") != "" {
+					fmt.Fprintf(os.Stderr, "c20 root: %s kind=%s V=%T\n", rt.String(), rt.Kind, rt.V)
+				}
+				in := rt.V
+				if in == nil {
+					continue
+				}
+				var home *ssa.Function
+				if p, ok := in.(*ssa.Parameter); ok {
+					home = p.Parent()
+				} else if iv, ok := in.(ssa.Instruction); ok {
+					home = iv.Parent()
+				}
+				if home == nil {
+					continue
+				}
+				top := home
+				for top.Parent() != nil {
+					top = top.Parent()
+				}
+				// an origin inside the command layer, or further up in the
+				// command-line library (the arguments as typed: the trace went
+				// up through a Run function without meeting ValidateQuery)
+				if top.Pkg == nil || (top.Pkg.Pkg.Path() != cliPkg && !strings.HasPrefix(top.Pkg.Pkg.Path(), "github.com/spf13/")) {
+					continue
+				}
+				if rt.Kind == "call" && strings.HasSuffix(rt.Name, "validation.ValidateQuery") {
+					continue
+				}
+				if rt.Kind == "const" {
+					continue
+				}
+				bad = append(bad, rt.String()+" in "+load.FuncKey(home))
+			}
+			sort.Strings(bad)
+			r.Check(len(bad) == 0, "O-3", ord.next(load.FuncKey(fn)+"#matcher-pattern-is-a-validated-query"), c.P.Pos(fc.Pos()), "whatever the command layer hands down to the typo matcher as its pattern is a ValidateQuery result", "a command hands its query to the typo matcher without ValidateQuery ("+shortName(strings.Join(bad, "; "))+"): the matcher sees leading, trailing and repeated blanks, so command lines that differ only in whitespace print different results")
+		}
+	}
+	r.Floor("O-3", "typo-matcher calls traced to the command layer", n, 1)
 }
